@@ -1,6 +1,7 @@
 import SciVerif.Tie.Atom
 import SciVerif.Generated.Skel
 import SciVerif.Props.C19
+import SciVerif.Tie.Pins
 /-! Tie A obligations for C19: the shape of both copies of `combine`, of `FileSplitter.Run`'s loop,
 of `IPSelectorSync.Run`/`recvOneEach`, of `Concatenator.Run` and of the source components. -/
 namespace SciVerif.Tie
@@ -70,7 +71,29 @@ theorem generated_concat_and_sources :
      Components.CommandToParams_Run.any (fun a => a.isCall "Text" && a.recv == "scanner") &&
      Components.FileGlobber_globFiles.any (fun a => a.isCall "Glob" && a.recv == "filepath")) = true := by decide
 
+
+-- BEGIN PINS (written by bin/mkpins; do not edit by hand)
+/-- the Go functions this property's model and obligations were written against have exactly the
+pinned skeletons (SHA-256 prefix of the atom list) -/
+theorem pinned_skeletons_c19 :
+    pinsOk
+    [("Components.CommandToParams_Run", "5332a14740c49675"),
+     ("Components.Concatenator_Run", "31b9a713ae609514"),
+     ("Components.FileCombinator_Run", "c80f07b773d07bc8"),
+     ("Components.FileCombinator_combine", "469f973aa97a6873"),
+     ("Components.FileGlobber_globFiles", "ee82b1a1db56bffd"),
+     ("Components.FileSource_Run", "301d30b840f1f193"),
+     ("Components.FileSplitter_Run", "5b56a840c637c735"),
+     ("Components.FileToParamsReader_Run", "73e9b69121ec7f25"),
+     ("Components.IPSelectorSync_Run", "bdc706bc9ab92453"),
+     ("Components.IPSelectorSync_recvOneEach", "61813e5b75ed7704"),
+     ("Components.ParamCombinator_Run", "f5dcec212739b17f"),
+     ("Components.ParamSource_Run", "e8fb20620214e0d2"),
+     ("Components.combine", "821eee6a8fd86d62")] = true := by decide
+-- END PINS
+
 end SciVerif.Tie
+#print axioms SciVerif.Tie.pinned_skeletons_c19
 #print axioms SciVerif.Tie.generated_combine_shape
 #print axioms SciVerif.Tie.generated_combinator_run
 #print axioms SciVerif.Tie.generated_splitter_shape
